@@ -42,6 +42,7 @@ type Prog struct {
 	anchors     map[string]bool
 	deadHelpers map[*ssa.Function]bool
 	sentinels   map[*ssa.Global]bool
+	gtables     map[*ssa.Global][]ssa.Value
 }
 
 // Load type-checks dir (patterns default to ./...) without test files and
